@@ -23,6 +23,11 @@ View(store, k, alwaysList) == LET vs == AttrGet(store, k) IN
   IF alwaysList \/ Len(vs) # 1 THEN [list |-> vs] ELSE [scalar |-> vs[1]]
 ViewAll(store, alwaysList) == [i \in 1..Len(store) |-> <<store[i][1], View(store, store[i][1], alwaysList)>>]
 
+\* Printing: the attribute column of str(feature) is Render of the STORED form - whatever the switch says (it "only changes how single-item lists
+\* are viewed").  Known finding Dev_SwitchLeaksIntoPrint: the printer reads the values through item access, so with the switch off a single-item
+\* list arrives as a bare string and is joined character by character ('gab' prints as 'g,a,b').
+Mangle(store) == [i \in 1..Len(store) |-> <<store[i][1], IF Len(store[i][2]) = 1 THEN [j \in 1..Len(store[i][2][1]) |-> <<store[i][2][1][j]>>] ELSE store[i][2]>>]
+Printed(store, sw, leak) == Render(IF leak /\ ~sw THEN Mangle(store) ELSE store, DefaultDialect, FALSE, FALSE)      \* (keep_order off: insertion order)
 \* the stored (underlying) form never depends on the switch; JSON text and back is the identity incl. key order
 Underlying(store) == store
 JsonRoundTrip(store) == store
